@@ -1,0 +1,38 @@
+//go:build verif
+
+package runner
+
+// VerifHooks receives instrumentation callbacks when dawn is built with the "verif" tag.
+// All fields are optional. The hooks are process-global: install them before calling Run
+// and do not change them while a Run is in progress.
+type VerifHooks struct {
+	// Gate is called with the gate's mutex held, immediately after its capacity changed by
+	// delta (-1 on enter, +1 on exit). capacity is the value after the change.
+	Gate func(capacity, delta int)
+	// Run is called when the goroutine that loads and evaluates the labelled target begins
+	// (before it acquires a slot) and when it ends (after it released its slot).
+	Run func(label string, begin bool)
+	// Yield is called at suspension points between critical sections.
+	Yield func(point, label string)
+}
+
+// Verif holds the installed hooks, if any.
+var Verif *VerifHooks
+
+func verifGate(g *gate, delta int) {
+	if h := Verif; h != nil && h.Gate != nil {
+		h.Gate(g.capacity, delta)
+	}
+}
+
+func verifRun(label string, begin bool) {
+	if h := Verif; h != nil && h.Run != nil {
+		h.Run(label, begin)
+	}
+}
+
+func verifYield(point, label string) {
+	if h := Verif; h != nil && h.Yield != nil {
+		h.Yield(point, label)
+	}
+}
